@@ -7,6 +7,7 @@
   (`strings.Title` is a parameter; idempotence is checked on the real function by the harness).
 -/
 import SpgProofs.Lemmas.WordList
+import SpgProofs.Properties.C05
 namespace Spg.C10
 open Spg
 
@@ -82,6 +83,18 @@ theorem kept_order_indep (hid : ∀ w, title (title w) = title w)
 /-- The order used by the executable model (first occurrences) is one of the admissible orders. -/
 theorem model_order_covers (input : List Word) : ∀ w ∈ input, w ∈ dedupW input :=
   fun _ hw => mem_dedupW.mpr hw
+
+/-- **Every generated atom is a kept word or its title-cased form**, on every random stream
+(for a list without an empty word — known finding D8 otherwise). -/
+theorem atoms_from_kept (cfg : Cfg) (r : WLRecipe) (wl : WordList) (hl : r.list = some wl)
+    (hne : ∀ w ∈ wl.words, w ≠ [] ∧ title w ≠ []) :
+    Rand.All (fun res => ∀ p, res = Res.ok p →
+        ∀ a ∈ Tokens.ofType atomType p.tokens, ∃ w ∈ wl.words, a = w ∨ a = title w)
+      (WLRecipe.generate cfg title r) := by
+  apply Rand.All_mono _ _ (C05.generate_structure cfg title r wl hl hne)
+  intro res h p hp
+  obtain ⟨caps, _, hshape⟩ := h p hp
+  exact C05.atoms_from_list title wl.words caps _ _ _ p.tokens hshape
 
 /-! ### Non-vacuity -/
 
